@@ -856,8 +856,8 @@ Section Phase1.
               exfalso. apply Hx. left. exact E. }
             rewrite Hrest. cbn [length]. rewrite Nat.add_0_r.
             destruct (o_sd o && isset iss (f_id d) && negb (f_many d) && is_nil (kids_of (f_id d) kids)) eqn:E.
-            + apply andb_true_iff in E. destruct E as [_ E]. rewrite E. cbn. destruct (has_tag (f_id d) (nil_elem (f_id d))); cbn; lia.
-            + cbn. lia.
+            + apply andb_true_iff in E. destruct E as [_ E]. rewrite E. cbn [filter]. destruct (has_tag (f_id d) (nil_elem (f_id d))); cbn [length]; lia.
+            + cbn [filter length]. lia.
           - assert (Hne : f_id d' <> f_id d).
             { intros E. apply Hx. rewrite E. apply in_map. exact Hd. }
             assert (H0 : filter (has_tag (f_id d))
@@ -919,3 +919,193 @@ Section Phase1.
     Qed.
   End Node.
 End Phase1.
+
+Lemma feat_in_In l f : In f (map f_id l) -> In (feat_in l f) l /\ find_feat l f = Some (feat_in l f).
+Proof.
+  intros H. unfold feat_in. destruct (find_feat l f) as [d|] eqn:E.
+  - split; [exact (proj2 (find_feat_some _ _ _ E)) | reflexivity].
+  - exfalso. exact (find_feat_none _ _ E H).
+Qed.
+
+(* the conjuncts of wf_tree, one by one *)
+Lemma wf_tree_node mm S c iss attrs refs kids :
+  wf_tree mm S (Node c iss attrs refs kids) = true ->
+  exists k, find_class mm c = Some k /\ c_abstract k = false
+    /\ map fst attrs = map f_id (c_attrs k)
+    /\ forallb (fun p =>
+         let d := feat_in (c_attrs k) (fst p) in
+         (f_many d || (length (snd p) =? 1)%nat)
+         && (isset iss (fst p)
+             || (if f_many d then is_nil (snd p)
+                 else match snd p with [v] => ostr_eqb v (f_dflt d) | _ => false end))) attrs = true
+    /\ map fst refs = map f_id (c_refs k)
+    /\ forallb (fun p =>
+         let d := feat_in (c_refs k) (fst p) in
+         (f_many d || (length (snd p) <=? 1)%nat)
+         && forallb (path_ok mm S d) (snd p)
+         && (negb (f_many d && f_unique d) || nodup_paths (snd p))
+         && (isset iss (fst p) || is_nil (snd p))) refs = true
+    /\ forallb (fun p =>
+         match find_feat (c_conts k) (fst p) with
+         | Some d => conforms mm (t_cls (snd p)) (f_type d) && wf_tree mm S (snd p)
+         | None => false
+         end) kids = true
+    /\ forallb (fun d =>
+         (f_many d || (length (kids_of (f_id d) kids) <=? 1)%nat)
+         && (isset iss (f_id d) || is_nil (kids_of (f_id d) kids))) (c_conts k) = true.
+Proof.
+  cbn [wf_tree]. destruct (find_class mm c) as [k|]; [|discriminate]. intros H.
+  repeat (apply andb_true_iff in H; let H' := fresh "W" in destruct H as [H H']).
+  exists k. apply negb_true_iff in H. repeat split; try assumption; try reflexivity.
+  - apply str_eqb_true. assumption.
+  - apply str_eqb_true. assumption.
+Qed.
+
+(* ---- phase 1, whole trees *)
+Theorem phase1 mm o S : wf_mm mm = true ->
+  forall t, wf_tree mm S t = true ->
+  forall tag xty, dec_obj mm (t_cls t) (enc_tree mm o S tag xty t) = Some (pre mm o S t).
+Proof.
+  intros Hmm. induction t as [c iss attrs refs kids IH] using tree_ind'. intros Hwf tag xty.
+  destruct (wf_tree_node _ _ _ _ _ _ _ Hwf) as (k & Ek & Hab & Wa & Wav & Wr & Wrv & Wk & Wc).
+  rewrite forallb_forall in Wav, Wrv, Wk, Wc. rewrite Forall_forall in IH.
+  cbn [t_cls]. apply (node_back mm o S Hmm c k iss attrs refs kids Ek Wa Wr).
+  - intros p Hp. specialize (Wk p Hp); cbv beta zeta in Wk. destruct (find_feat (c_conts k) (fst p)) as [d|]; [|discriminate Wk].
+    exists d. reflexivity.
+  - intros d Hd Hm. specialize (Wc d Hd); cbv beta zeta in Wc. rewrite Hm in Wc. cbn [orb] in Wc.
+    apply andb_true_iff in Wc. destruct Wc as [Wc _]. apply Nat.leb_le. exact Wc.
+  - intros a Ha. exact (Wav a Ha).
+  - intros a Ha. apply feat_in_In. rewrite <- Wr. apply in_map. exact Ha.
+  - intros p Hp. unfold enc_kid. apply (IH p Hp).
+    specialize (Wk p Hp); cbv beta zeta in Wk. destruct (find_feat (c_conts k) (fst p)) as [d|]; [|discriminate Wk].
+    apply andb_true_iff in Wk. exact (proj2 Wk).
+  - intros p d Hp Hd. specialize (Wk p Hp); cbv beta zeta in Wk. rewrite Hd in Wk. apply andb_true_iff in Wk. exact (proj1 Wk).
+  - exact Hab.
+Qed.
+
+(* ================================================================ 4. phase 2: the reference texts resolve *)
+Lemma existsb_false_Forall {A} (p : A -> bool) l : existsb p l = false -> Forall (fun x => negb (p x) = true) l.
+Proof.
+  induction l as [|x r IH]; simpl; intros H; [constructor|].
+  apply orb_false_iff in H. destruct H as [Hx Hr]. constructor; [rewrite Hx; reflexivity | exact (IH Hr)].
+Qed.
+
+Lemma dedup_nodup l : nodup_paths l = true -> dedup l = l.
+Proof.
+  induction l as [|p r IH]; simpl; intros H; [reflexivity|].
+  apply andb_true_iff in H. destruct H as [Hp Hr]. rewrite (IH Hr).
+  apply negb_true_iff in Hp. rewrite (filter_all_true _ r (existsb_false_Forall _ _ Hp)). reflexivity.
+Qed.
+
+Section Phase2.
+  Variable mm : mmodel.
+  Variable o : opts.
+  Variable S : list sk.
+  Hypothesis Hmm : wf_mm mm = true.
+
+  Lemma path_ok_frag d p : path_ok mm S d p = true ->
+    resolve_one mm S d (frag_of mm S p) = Some p /\ local (frag_of mm S p).
+  Proof.
+    unfold path_ok. intros H.
+    destruct (nth_error S (fst p)) as [n|] eqn:En; [|discriminate].
+    destruct (abs_steps mm n (snd p)) as [[ps c]|] eqn:Ea; [|discriminate].
+    assert (Hr : render_path mm S p = Some (root_text (length S) (fst p) ++ psteps_text ps)).
+    { unfold render_path. rewrite En, Ea. reflexivity. }
+    destruct (resolve_render mm S p _ Hmm Hr) as (Hl & Hh & n' & ps' & c' & En' & Ea' & Hres).
+    rewrite En in En'. inversion En'; subst n'. rewrite Ea in Ea'. inversion Ea'; subst ps' c'.
+    unfold frag_of. rewrite Hr. split; [|exact Hl].
+    unfold resolve_one. rewrite Hh, Hres, H. reflexivity.
+  Qed.
+
+  Lemma paths_frags d ps : forallb (path_ok mm S d) ps = true ->
+    traverse (resolve_one mm S d) (map (frag_of mm S) ps) = Some ps /\ Forall local (map (frag_of mm S) ps).
+  Proof.
+    intros H. rewrite forallb_forall in H. split.
+    - rewrite <- (map_id ps) at 2. apply traverse_map. apply Forall_forall. intros p Hp.
+      exact (proj1 (path_ok_frag d p (H p Hp))).
+    - apply Forall_forall. intros s Hs. apply in_map_iff in Hs. destruct Hs as (p & <- & Hp).
+      exact (proj2 (path_ok_frag d p (H p Hp))).
+  Qed.
+
+  (* one reference slot: the text written for it resolves to its targets *)
+  Lemma link_ref_back d set ps :
+    (f_many d || (length ps <=? 1)%nat)
+    && forallb (path_ok mm S d) ps
+    && (negb (f_many d && f_unique d) || nodup_paths ps)
+    && (set || is_nil ps) = true ->
+    link_ref mm S d (enc_text (enc_ref mm o S d set ps)) = Some ps.
+  Proof.
+    intros W. repeat (apply andb_true_iff in W; let W' := fresh "W" in destruct W as [W W']).
+    destruct (paths_frags d ps W2) as [HT HL].
+    unfold enc_ref. destruct set; cbn [negb].
+    2:{ cbn [orb] in W0. destruct ps; [reflexivity | discriminate]. }
+    destruct (f_many d) eqn:Em.
+    - destruct ps as [|p r]; [reflexivity|].
+      remember (p :: r) as l. unfold encode_refs.
+      destruct (map (frag_of mm S) l) as [|s0 sr] eqn:El; [subst l; discriminate|].
+      cbn [enc_text]. unfold link_ref. rewrite Em.
+      change (EAttr (join_sp (s0 :: sr))) with (encode_refs (s0 :: sr)).
+      rewrite (refs_roundtrip (fun _ => true) (s0 :: sr) HL), HT. cbn [andb].
+      destruct (f_unique d); [|reflexivity]. rewrite Em in W1. cbn [andb negb orb] in W1. rewrite (dedup_nodup l W1). reflexivity.
+    - cbn [orb] in W. apply Nat.leb_le in W.
+      destruct ps as [|p [|p' r]]; [destruct (o_sd o); reflexivity| |cbn in W; lia].
+      cbn [enc_text]. unfold link_ref. rewrite Em.
+      inversion HL as [|s l' Hs _]; subst. destruct Hs as [Hg _].
+      rewrite (proj1 Hg). rewrite (ref_single_roundtrip _ Hg). cbn [map] in HT. rewrite HT. reflexivity.
+  Qed.
+
+  Lemma skel_pre t : skel (pre mm o S t) = skel t.
+  Proof.
+    induction t as [c iss attrs refs kids IH] using tree_ind'. cbn [pre skel]. f_equal.
+    rewrite map_map. apply map_ext_Forall. eapply Forall_impl'; [|exact IH].
+    intros p Hp. cbn [fst snd]. rewrite Hp. reflexivity.
+  Qed.
+
+  Theorem phase2 : forall t, wf_tree mm S t = true -> link_tree mm S (pre mm o S t) = Some (forget t).
+  Proof.
+    induction t as [c iss attrs refs kids IH] using tree_ind'. intros Hwf.
+    destruct (wf_tree_node _ _ _ _ _ _ _ Hwf) as (k & Ek & Hab & Wa & Wav & Wr & Wrv & Wk & Wc).
+    rewrite forallb_forall in Wrv, Wk. rewrite Forall_forall in IH.
+    cbn [pre link_tree]. rewrite Ek. unfold class_or. rewrite Ek.
+    rewrite (traverse_map _ _ (fun p => (fst p, snd p)) refs).
+    - rewrite (traverse_map _ _ (fun p => (fst p, forget (snd p))) kids).
+      + cbn [forget]. f_equal. f_equal. rewrite <- (map_id refs) at 2. apply map_ext. intros [a b]. reflexivity.
+      + apply Forall_forall. intros p Hp. cbn [fst snd]. rewrite (IH p Hp); [reflexivity|].
+        specialize (Wk p Hp); cbv beta zeta in Wk. destruct (find_feat (c_conts k) (fst p)) as [d|]; [|discriminate Wk].
+        apply andb_true_iff in Wk. exact (proj2 Wk).
+    - apply Forall_forall. intros p Hp. cbn [fst snd].
+      assert (Hkey : In (fst p) (map f_id (c_refs k))) by (rewrite <- Wr; apply in_map; exact Hp).
+      rewrite (proj2 (feat_in_In _ _ Hkey)).
+      rewrite (link_ref_back _ _ _ (Wrv p Hp)). reflexivity.
+  Qed.
+End Phase2.
+
+(* ================================================================ 5. whole documents *)
+Lemma root_elems_enc mm o S F :
+  root_elems (encode_doc mm o F) = map (enc_root mm o (map skel F)) F \/ True.
+Proof. right. exact I. Qed.
+
+Lemma enc_root_tag mm o S t : x_tag (enc_root mm o S t) = TRoot (t_cls t).
+Proof. unfold enc_root. exact (proj1 (enc_tree_shape mm o S _ _ t)). Qed.
+
+Lemma root_elems_single x c : x_tag x = TRoot c -> root_elems x = [x].
+Proof. destruct x as [tg ty nl xa xk tx]. cbn. intros ->. reflexivity. Qed.
+
+Lemma root_elems_doc mm o F : root_elems (encode_doc mm o F) = map (enc_root mm o (map skel F)) F.
+Proof.
+  unfold encode_doc. destruct F as [|t [|t' r]]; [reflexivity| |reflexivity].
+  cbn [map]. exact (root_elems_single _ _ (enc_root_tag mm o _ t)).
+Qed.
+
+Theorem document_round_trip mm o F :
+  wf_mm mm = true -> wf_forest mm F = true ->
+  decode_doc mm (encode_doc mm o F) = Some (map forget F).
+Proof.
+  intros Hmm HF. unfold wf_forest in HF. rewrite forallb_forall in HF.
+  unfold decode_doc. rewrite root_elems_doc. set (S := map skel F) in *.
+  rewrite (traverse_map _ _ (pre mm o S) F).
+  - rewrite map_map. rewrite (map_ext _ _ (skel_pre mm o S)). fold S.
+    apply traverse_map. apply Forall_forall. intros t Ht. exact (phase2 mm o S Hmm t (HF t Ht)).
+  - apply Forall_forall. intros t Ht. unfold dec_root. rewrite enc_root_tag.
+    unfold enc_root. exact (phase1 mm o S Hmm t (HF t Ht) _ _).
+Qed.
